@@ -153,3 +153,7 @@ mod tests {
         }
     }
 }
+
+// verification hook (compiled only under `cargo kani`, see /verif/MANIFEST.json hooks)
+#[cfg(kani)]
+include!(concat!(env!("VERIF_KANI_INC"), "/s3s_dto_timestamp.rs"));
